@@ -1,4 +1,4 @@
-(** Injectivity for fragment F0: distinct in-range keys decode to distinct trial
+(** Injectivity for fragment F2: distinct in-range keys decode to distinct trial
     sequences (the product of the C13 bijections [perm_prefix_bij] and
     [comb_bij]).  Proof file. *)
 From Coq Require Import ZArith List Bool Arith Lia.
@@ -30,25 +30,26 @@ Qed.
 
 Section F0I.
 Variable fb : flat.
-Hypothesis HF : frag1 fb = true.
+Hypothesis HF : frag2 fb = true.
 Hypothesis Hq : 0 < f0_q fb.
 
 Local Notation c := (the_crossing fb).
 Local Notation n := (length (fl_design fb)).
 Local Notation q := (f0_q fb).
+Local Notation C := (f0_C fb).
 Local Notation lo := (f0_leftover fb).
 Local Notation prod := (f0_cprod fb).
 Local Notation ubi := (f0_ubi fb).
 
 (** one round: equal rows for every factor force equal components *)
-Lemma round_inj tc cp1 cp2 : tc <= q -> comp_ok fb tc cp1 -> comp_ok fb tc cp2 ->
+Lemma round_inj tc cp1 cp2 : tc <= C -> comp_ok fb tc cp1 -> comp_ok fb tc cp2 ->
   (forall g, g < n -> round_row fb tc cp1 g = round_row fb tc cp2 g) -> cp1 = cp2.
 Proof.
   intros Hle Hok1 Hok2 Hrows.
   destruct cp1 as [[a0 a1] a2]. destruct cp2 as [[b0 b1] b2].
-  pose proof Hok1 as (Ha0 & Ha1 & Ha2). pose proof Hok2 as (Hb0 & Hb1 & Hb2).
-  destruct (perm_of_spec fb HF Hq tc a0 Hle Ha0) as (_ & Hpl1 & [_ Hpb1] & Hr1).
-  destruct (perm_of_spec fb HF Hq tc b0 Hle Hb0) as (_ & Hpl2 & [_ Hpb2] & Hr2).
+  pose proof Hok1 as (Ha0 & Had & Ha1 & Ha2). pose proof Hok2 as (Hb0 & Hbd & Hb1 & Hb2).
+  destruct (perm_of_spec fb HF Hq tc a0 Hle Ha0 Had) as (_ & Hpl1 & Hpb1 & Hr1).
+  destruct (perm_of_spec fb HF Hq tc b0 Hle Hb0 Hbd) as (_ & Hpl2 & Hpb2 & Hr2).
   (* the permutations agree *)
   assert (Hperm : perm_of fb tc a0 = perm_of fb tc b0).
   { apply (nth_ext_len _ _ 0%Z); [lia|]. intros t Ht. rewrite Hpl1 in Ht.
@@ -97,8 +98,8 @@ Definition rounds_row (rcs : list (nat * comp)) (g : nat) : list (option nat) :=
 
 Lemma rounds_inj (rcs1 rcs2 : list (nat * comp)) :
   map fst rcs1 = map fst rcs2 ->
-  (forall rc, In rc rcs1 -> fst rc <= q /\ comp_ok fb (fst rc) (snd rc)) ->
-  (forall rc, In rc rcs2 -> fst rc <= q /\ comp_ok fb (fst rc) (snd rc)) ->
+  (forall rc, In rc rcs1 -> fst rc <= C /\ comp_ok fb (fst rc) (snd rc)) ->
+  (forall rc, In rc rcs2 -> fst rc <= C /\ comp_ok fb (fst rc) (snd rc)) ->
   (forall g, g < n -> rounds_row rcs1 g = rounds_row rcs2 g) -> rcs1 = rcs2.
 Proof.
   revert rcs2. induction rcs1 as [|[tc cp1] t1 IH]; intros [|[tc2 cp2] t2] Hfst H1 H2 Hrows; try discriminate; [reflexivity|].
@@ -117,7 +118,7 @@ Proof.
 Qed.
 
 Lemma all_rounds_fst k : key_ok fb k ->
-  map fst (all_rounds fb k) = repeat q (f0_rounds fb) ++ (if lo =? 0 then [] else [lo]).
+  map fst (all_rounds fb k) = repeat C (f0_rounds fb) ++ (if lo =? 0 then [] else [lo]).
 Proof.
   intros (_ & Hlen & _ & Hleft). unfold all_rounds. rewrite map_app, map_map. cbn [fst]. f_equal.
   - rewrite <- Hlen. clear. induction (k_rounds k) as [|x t IH]; [reflexivity|]. cbn [map length repeat]. f_equal. exact IH.
